@@ -28,7 +28,7 @@ vars == <<m, pin, cached, res>>
 
 PutModes == {"request", "requestpin", "upload", "uploadpin"}
 GetModes == {"request", "sync", "lookup"}
-SetModes == {"pin", "unpin", "remove", "sync"}
+SetModes == {"pin", "unpin", "remove"}   \* ModeSetSync is a legacy mode no property talks about
 
 (***************************************************************************)
 (* Pure operators shared with the judge                                    *)
@@ -86,7 +86,7 @@ SetOne(mode, root, a) ==
 
 \* a two-address call: only generated when it cannot fail half-way (both present)
 SetTwo(mode, root, a, b) ==
-  /\ a # b /\ m[a] # Absent /\ m[b] # Absent /\ mode \in {"pin", "sync"}
+  /\ a # b /\ m[a] # Absent /\ m[b] # Absent /\ mode = "pin"
   /\ pin' = IF mode = "pin" THEN [pin EXCEPT ![a] = @ + 1, ![b] = @ + 1] ELSE pin
   /\ \A c \in Addr : pin'[c] <= MaxPin
   /\ UNCHANGED <<m, cached>>
